@@ -40,6 +40,7 @@ class SqliteSem:
         self.str_len = str_len
         self.constructs = set()
         self.storage = {}  # output label -> static storage kind (for C12)
+        self.flags = set()
 
     def run(self, sql: str) -> Rel:
         return self.stmt(parse(sql))
@@ -141,7 +142,16 @@ class SqliteSem:
         sub = self.stmt(t["sub"])
         alias = t["alias"] or f"sub{next(K._fresh_ctr)}"
         names = [f"{alias}.{c}" for c in sub.names]
-        rel = Rel(names, {f"{alias}.{c}": sub.data[c] for c in sub.names}, sub.present, sub.ok)
+        ok = sub.ok
+        if t["sub"].get("order"):
+            # SQL: the order of a derived table is not carried to the enclosing query (the
+            # engine may sort for a window / join / GROUP BY); rows of the outer query have an
+            # unspecified order unless it has its own ORDER BY
+            ok, cons = K.unspecified_order(sub.n)
+            self.side += cons
+            self.notes.append("ORDER BY inside a derived table: outer row order unspecified")
+            self.flags.add("order-through-subquery")
+        rel = Rel(names, {f"{alias}.{c}": sub.data[c] for c in sub.names}, sub.present, ok)
         self.constructs.add("sql:subquery")
         return Env(rel, [(alias, c, f"{alias}.{c}") for c in sub.names])
 
